@@ -1,5 +1,6 @@
 import LunaVerif.Model.Usb2.ControlCyc
 import LunaVerif.Model.Periph.StreamGenerator
+import LunaVerif.Model.Usb2.DescriptorBlock
 /-
 CLOSED-LOOP composition of the cycle-level control-endpoint model (Model/Usb2/ControlCyc.lean) with the model of its
 `StreamSerializer(data_length=2, domain="usb", stream_type=USBInStreamInterface, max_length_width=2)` "transmitter"
@@ -57,5 +58,51 @@ def sysRun (c : Cfg) : SysState → List CycIn → List (SysState × CycOut)
 def sysFinal (c : Cfg) : SysState → List CycIn → SysState
   | s, [] => s
   | s, i :: is => sysFinal c (sysStep c s i).1 is
+
+/-! ### … and with the model of `GetDescriptorHandlerBlock` (Model/Usb2/DescriptorBlock.lean, C09)
+
+    get_descriptor_handler.value / length = setup.value / setup.length            (always)
+    get_descriptor_handler.start_position = the handler's `start_position` register
+    get_descriptor_handler.start          = data_requested   (in GET_DESCRIPTOR under `setup.type == STANDARD`, else 0)
+    get_descriptor_handler.tx.ready       = tx.ready         (`tx.attach(tx)`, …, else 0)
+    tx.valid / first / last / payload, handshakes_out.stall = get_descriptor_handler.tx.*, .stall   (…)
+
+The five descriptor-handler inputs of `CycIn` are overwritten with the block handler model's outputs of the same cycle.
+-/
+
+structure Sys2State where
+  cs  : CycState := {}
+  ser : SerState := serInit
+  blk : Desc.Block.State := Desc.Block.init
+
+def sys2Init : Sys2State := {}
+
+/-- The wires towards the descriptor handler. -/
+def blkInOf (cs : CycState) (i : CycIn) (o : HOut) : Desc.Block.In :=
+  ⟨i.su.value, i.su.length, cs.h.startPos, o.dStart, o.dReady⟩
+
+/-- The descriptor handler's outputs as the standard handler sees them. -/
+def withD (i : CycIn) (b : Desc.Beat) : CycIn :=
+  { i with dValid := b.valid, dFirst := b.first, dLast := b.last, dPayload := b.payload, dStall := b.stall }
+
+/-- What the block descriptor handler does in this cycle. -/
+def blkCycle (c : Cfg) (bc : Desc.Block.Config) (cs : CycState) (blk : Desc.Block.State) (i : CycIn) :
+    Desc.Block.State × Desc.Beat :=
+  Desc.Block.step bc blk (blkInOf cs i (step c cs i).2.h)
+
+/-- One clock cycle of the closed loop with both streamers. -/
+def sys2Step (c : Cfg) (bc : Desc.Block.Config) (s : Sys2State) (i : CycIn) : Sys2State × CycOut :=
+  let rb := blkCycle c bc s.cs s.blk i
+  let rs := serCycle c ⟨s.cs, s.ser⟩ i
+  let x := step c s.cs (withD (withT i rs.2) rb.2)
+  ({ cs := x.1, ser := rs.1, blk := rb.1 }, x.2)
+
+def sys2Run (c : Cfg) (bc : Desc.Block.Config) : Sys2State → List CycIn → List (Sys2State × CycOut)
+  | _, [] => []
+  | s, i :: is => sys2Step c bc s i :: sys2Run c bc (sys2Step c bc s i).1 is
+
+def sys2Final (c : Cfg) (bc : Desc.Block.Config) : Sys2State → List CycIn → Sys2State
+  | s, [] => s
+  | s, i :: is => sys2Final c bc (sys2Step c bc s i).1 is
 
 end LunaVerif.CtrlCyc
